@@ -351,9 +351,12 @@ def check(pid, tier, seed):
         bs, bcf = busy_scripts(seed, tier)
         yruns.update(common.run_harness(exe, bs))
         ycfgs.update(bcf)
-    cs, ccf = crowd_scripts(seed, tier)
-    yruns.update(common.run_harness(exe, cs))
-    ycfgs.update(ccf)
+    if pid in ("C01", "C02"):
+        # the crowd is validated against the exclusion contract only (hold / nodl): whether such an execution is a behaviour of the
+        # lazy / eager contract is beyond what TLC decides in minutes (dozens of requests whose admission may be delayed)
+        cs, ccf = crowd_scripts(seed, tier)
+        yruns.update(common.run_harness(exe, cs))
+        ycfgs.update(ccf)
 
     execs = {}
     src = {}
